@@ -927,6 +927,7 @@ func main() {
 		h.editSessions(cv.NewRand(4), 40)
 	}
 	h.refereeStreams()
+	h.wave6Streams()
 	h.finalChecks()
 	if err := h.w.Flush(); err != nil {
 		panic(err)
